@@ -134,7 +134,32 @@ impl Actor for A {
     type Msg = AMsg;
     type State = Arc<Shared>;
     type Arguments = Arc<Shared>;
-    async fn pre_start(&self, myself: ActorRef<AMsg>, sh: Arc<Shared>) -> Result<Arc<Shared>, ActorProcessingErr> {
+    // written as a plain fn returning a future: with fin = "bpanic" it panics WHILE BUILDING the future, i.e.
+    // outside do_pre_start's catch_unwind, so the panic unwinds through the start future itself
+    #[allow(refining_impl_trait)]
+    fn pre_start(
+        &self,
+        myself: ActorRef<AMsg>,
+        sh: Arc<Shared>,
+    ) -> impl std::future::Future<Output = Result<Arc<Shared>, ActorProcessingErr>> + Send {
+        if sh.fin == "bpanic" {
+            *sh.cell.lock().unwrap() = Some(myself.get_cell());
+            for e in sh.script.iter() {
+                match e {
+                    Eff::Join(k) => ractor::pg::join(group(&sh.idx, *k), vec![myself.get_cell()]),
+                    Eff::Mon(k) => ractor::pg::monitor(group(&sh.idx, *k), myself.get_cell()),
+                    Eff::Link => {
+                        let q = sh.q.lock().unwrap().clone();
+                        if let Some(q) = q {
+                            myself.get_cell().link(q);
+                        }
+                    }
+                    _ => {}
+                }
+            }
+            panic!("pre_start panicked while building its future");
+        }
+        async move {
         *sh.cell.lock().unwrap() = Some(myself.get_cell());
         let mut g = 0;
         for e in sh.script.iter() {
@@ -170,6 +195,7 @@ impl Actor for A {
             "err" => Err("pre_start error".into()),
             _ => panic!("pre_start panic"),
         }
+            }
     }
     async fn post_start(&self, _: ActorRef<AMsg>, sh: &mut Arc<Shared>) -> Result<(), ActorProcessingErr> {
         sh.ran.fetch_add(1, Ordering::SeqCst);
